@@ -54,6 +54,10 @@ const NAME_POOL: [&str; 24] = [
 impl<'a> ProgGen<'a> {
     fn fresh(&mut self, base: &str) -> String {
         self.names += 1;
+        if self.rng.chance(15) {
+            // names that collide with builtins and with each other
+            return self.rng.pick(&["printi", "printc", "readi", "exit", "time", "int", "main", "dup"]).to_string();
+        }
         if self.rng.chance(500) {
             format!("{base}{}", self.names)
         } else {
@@ -604,7 +608,7 @@ pub fn structural_edit(rng: &mut Rng, text: &str) -> (std::ops::Range<usize>, St
                 // rename an identifier occurrence
                 let ids: Vec<_> = toks.iter().filter(|r| is_ident(r)).collect();
                 if let Some(r) = ids.get(rng.below(ids.len().max(1))) {
-                    let new = *rng.pick(&["a", "renamed", "x1", "main", "i", "int", "T2", "q_"]);
+                    let new = *rng.pick(&["a", "renamed", "x1", "main", "i", "int", "T2", "q_", "printi", "time"]);
                     return ((*r).clone(), new.to_string());
                 }
             }
